@@ -42,6 +42,14 @@ def build_battery(spec):
 
 def prop(spec, rec):
     cap, V, T, maxp = spec["cap"], spec["V"], spec["T"], spec["maxp"]
+    # a battery cannot be created above its capacity (at capacity it can)
+    for over, ok in ((cap * (1 + 1e-9) + 1e-12, False), (cap, True)):
+        try:
+            build_battery(dict(spec, init=over))
+            made = True
+        except ValueError:
+            made = False
+        require(made == ok, "constructor_refuses_charge_above_capacity", lambda: "%s battery with capacity %r and initial charge %r: %s" % (spec["model"], cap, over, "accepted" if made else "refused"))
     batt = build_battery(spec)
     ev = EV(0, 100, 1e9, "st-1", "sess-1", batt)
     levels = spec.get("levels")
